@@ -5,7 +5,8 @@ proof:          lean/OdfModel/Props/C02.lean (print_parse, print_parse_partial, 
 correspondence: as C01 (encoders on all code points, toXml byte for byte, reference parser vs expat)
 oracle:         independent expat parse of the real bytes compared with a walk of qname/attributes/childNodes/data,
                 canonicalised as the property allows (CDATA = text, adjacent character data merged, U+FFFD only for
-                characters XML 1.0 cannot represent, attribute order free)
+                characters XML 1.0 cannot represent, attribute order free); also on the first streams a fresh process writes
+                (documents without anything of the meta namespace) and on every adjacent high+low surrogate pair
 known finding:  KF-C02-1 discouraged code points are replaced although XML can represent them
 """
 import xmlchecks as C
@@ -37,10 +38,16 @@ def run(chk, replay=None):
             ok, res = C.wellformed(doc)
             got = None if not ok else (res[3][0][2] if ctx == 'attr' else u''.join(k[1] for k in res[4]))
             print('replay: %r parsed back as %r' % (s, got)); return 0 if got == X.repl_illegal(s) else 1
+        if 'first_render' in inp:
+            C.first_render_one(chk, inp['first_render'])
+            for f in chk.failures:
+                print('replay:', f['sig'], f['case'].get('rendering'), '->', f['detail'][:300])
+            print('replay: %d stream(s) of the fresh process differ from the tree' % len(chk.failures)); return 1 if chk.failures else 0
         chk.seed = replay.get('seed', chk.seed)
     drv = C.setup(chk, ['OdfModel.Props.C02'])
     fs = C.encoders(chk, drv)
     C.strings_check(chk, drv, fs, want_identity=True)
+    C.surrogate_pairs_check(chk, drv, fs, want_identity=True)
     # the known finding's witness class, replayed on every run
     for s in (u'\x7f', u'a\x9fb', u'\U0002fffe'):
         for ctx in ('text', 'attr', 'cdata'):
@@ -55,4 +62,5 @@ def run(chk, replay=None):
     C.extreme_trees_check(chk, drv, want_identity=True)
     C.documents_check(chk, want_identity=True, drv=drv)
     C.loaded_samples_check(chk, want_identity=True)
+    C.first_render_identity_check(chk, drv)
     return chk.finish()
